@@ -854,7 +854,6 @@ Proof.
     assert (Hoffs : offs [x] = []) by (apply (offs_cons_heap x [] Ex)).
     constructor; cbn [mem snd pend rcv oth infb with_mem_rcv slices pinned recycled set_wpos set_slices set_leases leases]; auto.
     + constructor; cbn [slices set_wpos set_slices set_leases len]; [rewrite Hz; reflexivity|constructor|constructor].
-    + rewrite Hav. reflexivity.
     + intros y. specialize (I8 y). rewrite Es, Hoffs in I8. exact I8.
     + intros _. constructor.
     + intros E. destruct (I12 E) as [A B]. split; [constructor|exact B].
@@ -887,4 +886,353 @@ Proof.
   - intros _. constructor.
   - intros E. destruct (I12 E) as [A B]. split; [constructor|exact B].
   - apply leases_ok_nil. reflexivity.
+Qed.
+
+(* ---------------------------------------------------------------------------------------- *)
+(* every operation preserves the invariant and answers like the byte queue                   *)
+(* ---------------------------------------------------------------------------------------- *)
+Lemma Inv_eta s sp idss : Inv s sp idss ->
+  Inv {| mem := mem s; snd := snd s; infb := infb s; pend := pend s; rcv := rcv s; oth := oth s |} sp idss.
+Proof. destruct s. auto. Qed.
+
+Lemma revolve_allshm m l l' : revolve m l l' -> allshm (slices l) -> allshm (slices l').
+Proof.
+  intros H. destruct (revolve_keeps m l l' (fun x => shmf x = true) (fun s0 k E => E) H) as [_ [_ [_ K]]]. exact K.
+Qed.
+
+(* the state ReleaseReadAndReuse leaves in the send position *)
+Lemma adopt_wrote m l n b m1 :
+  store_ok m -> (forall x, cnt (frees m) x + cnt (offs (slices l)) x <= 1) -> slices l = [] -> len l = 0%Z ->
+  allocShmBuffer m n = Some (b, m1) ->
+  wrote m l [] m1 (set_wpos (push_back l b) (WAt 0)).
+Proof.
+  intros Hok Hown Hsl Hlen Hal.
+  assert (Hnd : NoDup (frees m)) by (apply NoDup_cnt; intros x; specialize (Hown x); lia).
+  destruct (allocShmBuffer_spec m n b m1 Hok Hnd Hal) as [j [P _]].
+  pose proof (popsR_snoc m [] m j b m1 Hnd (popsR_nil m Hok Hnd) P) as PR. cbn [app] in PR.
+  destruct PR as [Q1 Q2 Q3 Q4 Q5 Q6]. inversion Q2 as [|? ? Hb _]; subst.
+  destruct (fresh_wslice_ok m m1 b Hok Hb) as [Hwb [Hbody [Hwr Hroom]]].
+  assert (Hshm : shmf b = true) by (destruct Hb; assumption).
+  assert (Hoffs : offs [b] = [off b]) by (apply (offs_cons_shm b [] Hshm)).
+  constructor.
+  - constructor; try reflexivity; cbn [slices set_wpos push_back set_slices]; rewrite ?Hsl; cbn [app].
+    + intros x. specialize (Q1 x). change (offs []) with (@nil nat). rewrite cnt_nil. lia.
+    + intros x. specialize (Q1 x). lia.
+    + intros x Hx. apply Q3. exact Hx.
+    + exact Q5.
+    + exact Q4.
+  - constructor; cbn [slices set_wpos push_back set_slices wpos len fromshm]; rewrite ?Hsl; cbn [app length].
+    + constructor; [exact Hwb|constructor].
+    + rewrite Hoffs. constructor; [intros []|constructor].
+    + unfold content. cbn [slices set_wpos push_back set_slices]. rewrite Hsl. cbn [app map concat]. rewrite Hbody. cbn. exact Hlen.
+    + reflexivity.
+    + intros _ H. rewrite Hlen in H. lia.
+    + intros _. constructor; [exact Hshm|constructor].
+  - unfold content. cbn [slices set_wpos push_back set_slices]. rewrite Hsl. cbn [app map concat]. rewrite Hbody. reflexivity.
+  - intros x. cbn [slices set_wpos push_back set_slices]. rewrite Hsl. cbn [app]. specialize (Q1 x). specialize (Hown x). lia.
+Qed.
+
+Lemma Inv_with_pw_nil s sp idss : Inv s sp idss -> Inv s (with_pw sp (pw sp ++ [])) idss.
+Proof. apply Inv_spec_eq; cbn; auto. apply app_nil_r. Qed.
+
+Theorem step_inv s sp idss o : Inv s sp idss ->
+  match spec_step sp o with
+  | None => step s o = Blocked
+  | Some (x, sp') => exists y s' idss', step s o = Ok (y, s') /\ res_agree o x y /\ Inv s' sp' idss'
+  end.
+Proof.
+  intros I. pose proof (wpre_of_Inv _ _ _ I) as Hpre.
+  assert (Hwb : forall bs, bs <> [] -> exists y s' idss', (do (n, m1, l1) <- write_bytes bs (mem s) (snd s); Ok (RN n, with_mem_snd s m1 l1)) = Ok (y, s')
+                 /\ RN (length bs) = y /\ Inv s' (with_pw sp (pw sp ++ bs)) idss').
+  { intros bs Hne. destruct (write_bytes_ok _ _ bs Hpre Hne) as [m' [l' [Hr Hw]]]. rewrite Hr. cbn [bind].
+    eexists. eexists. exists idss. split; [reflexivity|]. split; [reflexivity|]. apply Inv_writer; assumption. }
+  assert (Hread : forall n, 0 < n ->
+            match spec_more n sp with
+            | None => read_more n s = Blocked
+            | Some sp1 => exists s1 idss1, read_more n s = Ok s1 /\ Inv s1 sp1 idss1 /\ n <= length (av sp1)
+                          /\ (Z.of_nat n <= len (rcv s1))%Z
+            end).
+  { intros n Hn. pose proof (Inv_read_more s sp idss n I) as H. destruct (spec_more n sp) as [sp1|]; [|exact H].
+    destruct H as [s1 [idss1 [H1 [H2 H3]]]]. exists s1, idss1. split; [exact H1|]. split; [exact H2|]. split; [exact H3|].
+    destruct (Inv_lens _ _ _ H2) as [E _]. rewrite E. apply Nat2Z.inj_le. exact H3. }
+  destruct o; cbn [spec_step step].
+  - (* WBytes *)
+    destruct bs as [|b0 bs0] eqn:Eb.
+    + cbn [write_bytes bind length]. eexists. eexists. exists idss. split; [reflexivity|]. split; [reflexivity|].
+      apply Inv_eta. apply Inv_with_pw_nil. exact I.
+    + rewrite <- Eb. destruct (Hwb bs ltac:(rewrite Eb; discriminate)) as [y [s' [idss' [H1 [H2 H3]]]]]. exists y, s', idss'. auto.
+  - (* WByte *)
+    destruct (write_byte_ok _ _ b Hpre) as [m' [l' [Hr Hw]]]. rewrite Hr. cbn [bind].
+    eexists. eexists. exists idss. split; [reflexivity|]. split; [reflexivity|]. apply Inv_writer; assumption.
+  - (* WReserve *)
+    destruct bs as [|b0 bs0] eqn:Eb.
+    + unfold reserve. cbn [length Nat.eqb bind]. eexists. eexists. exists idss. split; [reflexivity|]. split; [reflexivity|].
+      apply Inv_eta. apply Inv_with_pw_nil. exact I.
+    + rewrite <- Eb. destruct (reserve_ok _ _ bs Hpre ltac:(rewrite Eb; discriminate)) as [m' [l' [Hr Hw]]]. rewrite Hr. cbn [bind].
+      eexists. eexists. exists idss. split; [reflexivity|]. split; [reflexivity|]. apply Inv_writer; assumption.
+  - (* WString *)
+    destruct bs as [|b0 bs0] eqn:Eb.
+    + cbn [write_bytes bind length]. eexists. eexists. exists idss. split; [reflexivity|]. split; [reflexivity|].
+      apply Inv_eta. apply Inv_with_pw_nil. exact I.
+    + rewrite <- Eb. destruct (Hwb bs ltac:(rewrite Eb; discriminate)) as [y [s' [idss' [H1 [H2 H3]]]]]. exists y, s', idss'. auto.
+  - (* WWrite *)
+    destruct bs as [|b0 bs0] eqn:Eb.
+    + eexists. eexists. exists idss. split; [reflexivity|]. split; [reflexivity|]. exact I.
+    + rewrite <- Eb. destruct (write_bytes_ok _ _ bs Hpre ltac:(rewrite Eb; discriminate)) as [m' [l' [Hr Hw]]]. rewrite Hr. cbn [bind].
+      pose proof (Inv_writer s sp idss bs m' l' I Hw) as I1.
+      destruct (Inv_flush _ _ _ I1) as [s' [idss' [Hf I2]]]. rewrite Hf. cbn [bind].
+      exists (RN (length bs)), s', idss'. split; [reflexivity|]. split; [reflexivity|]. exact I2.
+  - (* WFlush *)
+    destruct (Inv_flush _ _ _ I) as [s' [idss' [Hf I2]]]. rewrite Hf. cbn [bind].
+    exists RUnit, s', idss'. split; [reflexivity|]. split; [reflexivity|]. exact I2.
+  - (* WAdopt *)
+    destruct (slices (snd s)) as [|x0 r0] eqn:Esl; [|eexists; eexists; exists idss; split; [reflexivity|]; split; [exact Logic.I|exact I]].
+    destruct (wpos (snd s)) eqn:Ewp; try (eexists; eexists; exists idss; split; [reflexivity|]; split; [exact Logic.I|exact I]).
+    destruct (allocShmBuffer (mem s) n) as [[b m1]|] eqn:Eal; [|eexists; eexists; exists idss; split; [reflexivity|]; split; [exact Logic.I|exact I]].
+    eexists. eexists. exists idss. split; [reflexivity|]. split; [exact Logic.I|].
+    destruct Hpre as [Hok [Hw Hown]].
+    assert (Hlen : len (snd s) = 0%Z) by (rewrite (wb_len _ _ Hw); unfold content; rewrite Esl; reflexivity).
+    pose proof (adopt_wrote (mem s) (snd s) n b m1 Hok Hown Esl Hlen Eal) as Hwr.
+    apply (Inv_spec_eq _ (with_pw sp (pw sp ++ []))); [cbn; symmetry; apply app_nil_r|reflexivity|reflexivity|].
+    apply Inv_writer; assumption.
+  - (* RBytes *)
+    destruct (Nat.eqb_spec n 0) as [Hz|Hnz]; [eexists; eexists; exists idss; split; [reflexivity|]; split; [reflexivity|exact I]|].
+    specialize (Hread n ltac:(lia)). destruct (spec_more n sp) as [sp1|]; [|rewrite Hread; reflexivity].
+    destruct Hread as [s1 [idss1 [H1 [I1 [Hn Hl]]]]]. rewrite H1. cbn [bind].
+    destruct (read_bytes_refines (mem s1) n (rcv s1) (iv_wf _ _ _ I1) ltac:(lia) Hl) as [l2 [Hr [Hc Hwf]]].
+    rewrite (iv_av _ _ _ I1) in Hr, Hc.
+    destruct (reader_step s1 sp1 idss1 (fun m l => read_bytes m n l) RData _ l2 _ I1 Hr (read_bytes_revolve _ _ _ _ _ Hr) Hwf Hc
+                (revolve_allshm _ _ _ (read_bytes_revolve _ _ _ _ _ Hr))) as [s' [Hs I2]].
+    exists (RData (firstn n (av sp1))), s', idss1. split; [exact Hs|split; [reflexivity|exact I2]].
+  - (* RPeek *)
+    destruct (Nat.eqb_spec n 0) as [Hz|Hnz]; [eexists; eexists; exists idss; split; [reflexivity|]; split; [reflexivity|exact I]|].
+    specialize (Hread n ltac:(lia)). destruct (spec_more n sp) as [sp1|]; [|rewrite Hread; reflexivity].
+    destruct Hread as [s1 [idss1 [H1 [I1 [Hn Hl]]]]]. rewrite H1. cbn [bind].
+    destruct (peek_refines (mem s1) n (rcv s1) (iv_wf _ _ _ I1) ltac:(lia) Hl) as [l2 [Hr [Hs1 [Hl1 _]]]].
+    rewrite (iv_av _ _ _ I1) in Hr.
+    assert (Hwf : WF (mem s1) l2) by (apply (WF_fields (mem s1) (rcv s1)); [exact Hs1|exact Hl1|exact (iv_wf _ _ _ I1)]).
+    assert (Hc : content (mem s1) l2 = av sp1) by (unfold content; rewrite Hs1; exact (iv_av _ _ _ I1)).
+    destruct (reader_step s1 sp1 idss1 (fun m l => peek m n l) RData _ l2 _ I1 Hr (peek_revolve _ _ _ _ _ Hr) Hwf Hc
+                (revolve_allshm _ _ _ (peek_revolve _ _ _ _ _ Hr))) as [s' [Hs I2]].
+    exists (RData (firstn n (av sp1))), s', idss1. split; [exact Hs|]. split; [reflexivity|].
+    apply (Inv_spec_eq _ (with_av sp1 (av sp1))); auto.
+  - (* RDiscard *)
+    destruct (Nat.eqb_spec n 0) as [Hz|Hnz].
+    + subst n. assert (E : spec_more 0 sp = Some sp) by (unfold spec_more; reflexivity). rewrite E.
+      eexists. eexists. exists idss. split; [reflexivity|]. split; [reflexivity|]. apply (Inv_spec_eq _ sp); auto.
+    + specialize (Hread n ltac:(lia)). destruct (spec_more n sp) as [sp1|]; [|rewrite Hread; reflexivity].
+      destruct Hread as [s1 [idss1 [H1 [I1 [Hn Hl]]]]]. rewrite H1. cbn [bind].
+      destruct (discard_refines (mem s1) n (rcv s1) (iv_wf _ _ _ I1) Hl) as [l2 [Hr [Hc [Hwf _]]]].
+      rewrite (iv_av _ _ _ I1) in Hc.
+      destruct (reader_step s1 sp1 idss1 (fun _ l => discard n l) RN _ l2 _ I1 Hr (discard_revolve (mem s1) _ _ _ _ Hr) Hwf Hc
+                  (revolve_allshm _ _ _ (discard_revolve (mem s1) _ _ _ _ Hr))) as [s' [Hs I2]].
+      exists (RN n), s', idss1. split; [exact Hs|split; [reflexivity|exact I2]].
+  - (* RByte *)
+    specialize (Hread 1 ltac:(lia)). destruct (spec_more 1 sp) as [sp1|]; [|rewrite Hread; reflexivity].
+    destruct Hread as [s1 [idss1 [H1 [I1 [Hn Hl]]]]]. rewrite H1. cbn [bind].
+    destruct (read_byte_refines (mem s1) (rcv s1) (iv_wf _ _ _ I1) ltac:(lia)) as [b [l2 [Hr [Hc [Hwf _]]]]].
+    rewrite (iv_av _ _ _ I1) in Hc. destruct (av sp1) as [|b0 r0] eqn:Ea; [cbn in Hn; lia|]. injection Hc as <- Hc.
+    destruct (reader_step s1 sp1 idss1 (fun m l => read_byte m l) RB _ l2 _ I1 Hr (read_byte_revolve _ _ _ _ Hr) Hwf (eq_sym Hc)
+                (revolve_allshm _ _ _ (read_byte_revolve _ _ _ _ Hr))) as [s' [Hs I2]].
+    exists (RB b0), s', idss1. split; [exact Hs|split; [reflexivity|exact I2]].
+  - (* RString *)
+    destruct (Nat.eqb_spec n 0) as [Hz|Hnz]; [eexists; eexists; exists idss; split; [reflexivity|]; split; [reflexivity|exact I]|].
+    specialize (Hread n ltac:(lia)). destruct (spec_more n sp) as [sp1|]; [|rewrite Hread; reflexivity].
+    destruct Hread as [s1 [idss1 [H1 [I1 [Hn Hl]]]]]. rewrite H1. cbn [bind].
+    destruct (read_string_refines (mem s1) n (rcv s1) (iv_wf _ _ _ I1) ltac:(lia) Hl) as [l2 [Hr [Hc [Hwf _]]]].
+    rewrite (iv_av _ _ _ I1) in Hr, Hc.
+    destruct (reader_step s1 sp1 idss1 (fun m l => read_string m n l) RData _ l2 _ I1 Hr (read_string_revolve _ _ _ _ _ Hr) Hwf Hc
+                (revolve_allshm _ _ _ (read_string_revolve _ _ _ _ _ Hr))) as [s' [Hs I2]].
+    exists (RData (firstn n (av sp1))), s', idss1. split; [exact Hs|split; [reflexivity|exact I2]].
+  - (* RRead *)
+    destruct (Nat.eqb_spec n 0) as [Hz|Hnz]; [eexists; eexists; exists idss; split; [reflexivity|]; split; [reflexivity|exact I]|].
+    specialize (Hread 1 ltac:(lia)). destruct (spec_more 1 sp) as [sp1|]; [|rewrite Hread; reflexivity].
+    destruct Hread as [s1 [idss1 [H1 [I1 [Hn Hl]]]]]. rewrite H1. cbn [bind].
+    destruct (read_copy_refines (mem s1) n (rcv s1) (iv_wf _ _ _ I1) ltac:(lia)) as [l2 [Hr [Hc [Hwf _]]]].
+    rewrite (iv_av _ _ _ I1) in Hr, Hc.
+    destruct (reader_step s1 sp1 idss1 (fun m l => read_copy m n l) RData _ l2 _ I1 Hr (read_copy_revolve _ _ _ _ _ Hr) Hwf Hc
+                (revolve_allshm _ _ _ (read_copy_revolve _ _ _ _ _ Hr))) as [s' [Hs I2]].
+    eexists. exists s', idss1. split; [exact Hs|]. split; [reflexivity|exact I2].
+  - (* RRelease *)
+    pose proof (Inv_release s sp idss I) as H. destruct (release (mem s) (rcv s)) as [m1 l1].
+    eexists. eexists. exists idss. split; [reflexivity|]. split; [reflexivity|exact H].
+  - (* RReleaseReuse *)
+    pose proof (Inv_release_reserve s sp idss I) as H. destruct (release_reserve (mem s) (rcv s)) as [m1 l1].
+    eexists. eexists. exists idss. split; [reflexivity|]. split; [reflexivity|exact H].
+  - (* RClose *)
+    pose proof (Inv_close s sp idss I) as H. destruct (lb_recycle (mem s) (rcv s)) as [m1 l1].
+    eexists. eexists. exists idss. split; [reflexivity|]. split; [reflexivity|exact H].
+  - (* OAlloc *)
+    destruct (allocShmBuffer (mem s) n) as [[b m1]|] eqn:Eal.
+    + eexists. eexists. exists idss. split; [reflexivity|]. split; [exact Logic.I|]. exact (Inv_oalloc s sp idss n b m1 I Eal).
+    + eexists. eexists. exists idss. split; [reflexivity|]. split; [exact Logic.I|exact I].
+  - (* OFill *)
+    destruct (nth_error (oth s) i) as [b|] eqn:En.
+    + eexists. eexists. exists idss. split; [reflexivity|]. split; [reflexivity|]. exact (Inv_ofill s sp idss i b bs I En).
+    + eexists. eexists. exists idss. split; [reflexivity|]. split; [reflexivity|exact I].
+  - (* OFree *)
+    destruct (nth_error (oth s) i) as [b|] eqn:En.
+    + eexists. eexists. exists idss. split; [reflexivity|]. split; [reflexivity|]. exact (Inv_ofree s sp idss i b I En).
+    + eexists. eexists. exists idss. split; [reflexivity|]. split; [reflexivity|exact I].
+Qed.
+
+(* ---------------------------------------------------------------------------------------- *)
+(* from the invariant to the refinement; the initial state                                   *)
+(* ---------------------------------------------------------------------------------------- *)
+Theorem agrees_of_Inv : forall ops s sp idss, Inv s sp idss -> agrees s sp ops.
+Proof.
+  induction ops as [|o ops IH]; intros s sp idss I; [exact Logic.I|]. cbn [agrees].
+  pose proof (step_inv s sp idss o I) as H. destruct (spec_step sp o) as [[x sp']|].
+  - destruct H as [y [s' [idss' [H1 [H2 H3]]]]]. exists y, s'. split; [exact H1|]. split; [exact H2|].
+    destruct (Inv_lens _ _ _ H3) as [L1 L2]. split; [exact L1|]. split; [exact L2|]. eapply IH; exact H3.
+  - split; [exact H|]. eapply IH; exact I.
+Qed.
+
+(* the guard createFreeBufferList enforces: no size class of capacity 0 *)
+Definition cfg_ok (cfg : list (nat * nat)) : Prop := Forall (fun p => 0 < fst p) cfg.
+
+Lemma init_classes_spec : forall cfg base fs ss, init_classes cfg base = (fs, ss) ->
+  length fs = length cfg /\ concat fs = seq base (length ss) /\
+  (forall i f o, nth_error fs i = Some f -> In o f ->
+     base <= o /\ nth_error ss (o - base) = Some (fresh_slot (fst (nth i cfg (0, 0))))) /\
+  (forall k t, nth_error ss k = Some t -> exists c, In c (map fst cfg) /\ t = fresh_slot c).
+Proof.
+  induction cfg as [|[c k] r IH]; intros base fs ss H; cbn [init_classes] in H.
+  - injection H as <- <-. repeat split; auto; intros; destruct i || destruct k; discriminate.
+  - destruct (init_classes r (base + k)) as [fs0 ss0] eqn:E. injection H as <- <-.
+    destruct (IH _ _ _ E) as [A [B [C D]]]. split; [cbn; lia|]. split; [|split].
+    + cbn [concat]. rewrite B, app_length, repeat_length, seq_app. reflexivity.
+    + intros i f o Hi Ho. destruct i as [|i]; cbn [nth_error nth fst] in *.
+      * injection Hi as <-. apply in_seq in Ho. split; [lia|].
+        rewrite nth_error_app1 by (rewrite repeat_length; lia). apply nth_error_repeat. lia.
+      * destruct (C i f o Hi Ho) as [C1 C2]. split; [lia|].
+        rewrite nth_error_app2 by (rewrite repeat_length; lia). rewrite repeat_length.
+        replace (o - base - k) with (o - (base + k)) by lia. exact C2.
+    + intros j t Hj. destruct (Nat.lt_ge_cases j k) as [Hlt|Hge].
+      * rewrite nth_error_app1 in Hj by (rewrite repeat_length; lia). rewrite nth_error_repeat in Hj by lia. injection Hj as <-.
+        exists c. split; [left; reflexivity|reflexivity].
+      * rewrite nth_error_app2 in Hj by (rewrite repeat_length; lia). destruct (D _ _ Hj) as [c' [D1 D2]].
+        exists c'. split; [right; exact D1|exact D2].
+Qed.
+
+Lemma init_store cfg : cfg_ok cfg -> store_ok (init_shm cfg) /\ NoDup (frees (init_shm cfg)).
+Proof.
+  intros Hc. unfold init_shm. destruct (init_classes cfg 0) as [fs ss] eqn:E.
+  destruct (init_classes_spec cfg 0 fs ss E) as [A [B [C D]]]. split.
+  - constructor; cbn [free cls slots].
+    + rewrite map_length. exact A.
+    + unfold cfg_ok in Hc. rewrite Forall_forall in *. intros x Hx. apply in_map_iff in Hx. destruct Hx as [p [<- Hp]]. apply Hc. exact Hp.
+    + intros o t Ht. unfold slot_at in Ht. cbn [slots] in Ht. destruct (D _ _ Ht) as [c [D1 ->]].
+      cbn [fresh_slot st_data st_cap]. rewrite repeat_length. auto.
+    + intros i f o Hi Ho. destruct (C i f o Hi Ho) as [_ C2]. rewrite Nat.sub_0_r in C2.
+      exists (fresh_slot (fst (nth i cfg (0, 0)))). unfold slot_at. cbn [slots]. split; [exact C2|].
+      cbn [fresh_slot st_cap st_size st_start]. split; [|auto].
+      symmetry. apply (map_nth fst cfg (0, 0) i).
+  - unfold frees. cbn [free]. rewrite B. apply seq_NoDup.
+Qed.
+
+Lemma Inv_init cfg : cfg_ok cfg -> Inv (init_sys cfg) spec0 [].
+Proof.
+  intros Hc. destruct (init_store cfg Hc) as [Hok Hnd].
+  constructor; cbn [init_sys mem snd pend rcv oth infb spec0 pw infl av empty_buf slices pinned recycled leases concat app].
+  - exact Hok.
+  - constructor; cbn; try constructor; try reflexivity; try (intros H; congruence).
+  - reflexivity.
+  - constructor.
+  - apply WF_empty.
+  - reflexivity.
+  - reflexivity.
+  - intros x. change (offs []) with (@nil nat). rewrite !cnt_nil. apply NoDup_cnt with (x := x) in Hnd. lia.
+  - constructor.
+  - split; constructor.
+  - intros H. congruence.
+  - intros _. split; [constructor|intros d []].
+  - intros le [].
+Qed.
+
+(* C06: the whole pipe refines the byte queue *)
+Theorem pipe_refines cfg ops : cfg_ok cfg -> agrees (init_sys cfg) spec0 ops.
+Proof. intros Hc. eapply agrees_of_Inv. apply Inv_init. exact Hc. Qed.
+
+(* the invariant holds in every state reachable from the initial one *)
+Fixpoint spec_run (sp : spec) (ops : list op) : spec :=
+  match ops with
+  | [] => sp
+  | o :: r => match spec_step sp o with Some (_, sp') => spec_run sp' r | None => spec_run sp r end
+  end.
+
+Theorem reachable_Inv : forall ops s sp idss s', Inv s sp idss -> run s ops = Ok s' -> exists idss', Inv s' (spec_run sp ops) idss'.
+Proof.
+  induction ops as [|o ops IH]; intros s sp idss s' I H; cbn [run spec_run] in *.
+  - injection H as <-. exists idss. exact I.
+  - pose proof (step_inv s sp idss o I) as Hs. destruct (spec_step sp o) as [[x sp']|].
+    + destruct Hs as [y [s1 [idss1 [H1 [_ I1]]]]]. rewrite H1 in H. eapply IH; eassumption.
+    + rewrite Hs in H. eapply IH; eassumption.
+Qed.
+
+(* C08: in every reachable state every live lease is safe *)
+Theorem leases_safe cfg ops s' le : cfg_ok cfg -> run (init_sys cfg) ops = Ok s' ->
+  In le (leases (rcv s')) -> l_shm le = true ->
+  ~ In (l_off le) (frees (mem s')) /\ lease_bytes (mem s') le = l_bytes le
+  /\ ~ In (l_off le) (offs (slices (snd s'))) /\ ~ In (l_off le) (offs (oth s')).
+Proof.
+  intros Hc Hrun Hin Hs. destruct (reachable_Inv ops _ _ _ _ (Inv_init cfg Hc) Hrun) as [idss' I].
+  destruct (Inv_leases_safe _ _ _ le I Hin Hs) as [A [B [C [D _]]]]. auto.
+Qed.
+
+(* only fast-path ReadBytes / Peek create leases: every other result is a copy *)
+Theorem no_panic cfg ops : cfg_ok cfg -> forall w, run (init_sys cfg) ops <> Panic w.
+Proof.
+  intros Hc w. assert (G : forall ops s sp idss, Inv s sp idss -> run s ops <> Panic w).
+  { clear ops. induction ops as [|o ops IH]; intros s sp idss I; cbn [run]; [discriminate|].
+    pose proof (step_inv s sp idss o I) as Hs. destruct (spec_step sp o) as [[x sp']|].
+    - destruct Hs as [y [s1 [idss1 [H1 [_ I1]]]]]. rewrite H1. eapply IH; exact I1.
+    - rewrite Hs. eapply IH; exact I. }
+  eapply G. apply Inv_init. exact Hc.
+Qed.
+
+(* ---------------------------------------------------------------------------------------- *)
+(* slow paths hand out copies: a lease is created only when the bytes lie inside one slice   *)
+(* ---------------------------------------------------------------------------------------- *)
+Lemma read_next_leases l l' : read_next l = Ok l' -> leases l' = leases l.
+Proof.
+  unfold read_next. destruct (slices l) as [|s r]; [discriminate|]. intros H. injection H as <-.
+  destruct (shmf s); [destruct (curp l)|]; reflexivity.
+Qed.
+
+Lemma rb_slow_leases m : forall fuel n acc l bs l', rb_slow m fuel n acc l = Ok (bs, l') -> leases l' = leases l.
+Proof.
+  induction fuel as [|fuel IH]; intros n acc l bs l' H; destruct n as [|n']; cbn [rb_slow] in H;
+    try (injection H as _ <-; reflexivity); try discriminate.
+  destruct (slices l) as [|s r] eqn:Es; [discriminate|].
+  apply bind_ok in H. destruct H as [[bs0 k] [_ H]].
+  destruct (k =? S n').
+  - injection H as _ <-. reflexivity.
+  - apply bind_ok in H. destruct H as [l2 [Hn H]]. rewrite (IH _ _ _ _ _ H), (read_next_leases _ _ Hn). reflexivity.
+Qed.
+
+Theorem read_bytes_lease_cases m n l bs l' : read_bytes m n l = Ok (bs, l') ->
+  leases l' = leases l \/ exists s, leases l' = leases l ++ [mk_lease s n bs] /\ n <= ssize s.
+Proof.
+  unfold read_bytes. destruct (n =? 0); [intros H; injection H as _ <-; left; reflexivity|].
+  destruct (slices l) as [|s0 r0] eqn:Es; [discriminate|]. intros H.
+  apply bind_ok in H. destruct H as [l1 [H1 H]].
+  assert (Hl1 : leases l1 = leases l).
+  { destruct (ssize s0 =? 0); [apply read_next_leases; exact H1|injection H1 as <-; reflexivity]. }
+  destruct (slices l1) as [|s r] eqn:Es1; [discriminate|].
+  destruct (Nat.leb_spec n (ssize s)) as [Hle|_].
+  - apply bind_ok in H. destruct H as [[bs0 k] [Ht H]]. injection H as <- <-. right. exists s.
+    cbn [leases set_leases]. rewrite Hl1. split; [reflexivity|exact Hle].
+  - left. rewrite (rb_slow_leases _ _ _ _ _ _ _ H). exact Hl1.
+Qed.
+
+Theorem peek_lease_cases m n l bs l' : peek m n l = Ok (bs, l') ->
+  l' = l \/ exists s, leases l' = leases l ++ [mk_lease s n bs] /\ n <= ssize s.
+Proof.
+  unfold peek. destruct (n =? 0); [intros H; injection H as _ <-; left; reflexivity|].
+  destruct (slices l) as [|s r] eqn:Es; [discriminate|]. intros H.
+  apply bind_ok in H. destruct H as [[bs0 k] [Ht H]].
+  destruct (Nat.eqb_spec k n) as [->|_].
+  - injection H as <- <-. right. exists s. split; [reflexivity|]. apply sl_take_inv in Ht. destruct Ht as [Hk _]. lia.
+  - apply bind_ok in H. destruct H as [res [_ H]]. injection H as _ <-. left. reflexivity.
 Qed.
